@@ -742,9 +742,10 @@ func decodeMixed(c *Ctx, prop string, class int) {
 	if c.PlanOnly {
 		return
 	}
-	if prop == "C02" && class == 7 && res.Panic == nil {
-		// "CPU time within a generous per-byte watchdog": the inputs of this campaign are the ones
-		// that can make a loop run many times per input byte without touching the device. A call
+	if prop == "C02" && (class == 7 || class == 3) && res.Panic == nil {
+		// "CPU time within a generous per-byte watchdog": the inputs of these campaigns (structures
+		// repeated thousands of times; count and size fields driven to their largest values) are the
+		// ones that can make a loop run many times per input byte without touching the device. A call
 		// that takes longer than 1 s + 2 us per byte (a thousand times the usual cost) is repeated twice; three slow executions in
 		// a row are work, not scheduling noise.
 		limit := time.Second + time.Duration(len(data))*2*time.Microsecond
